@@ -78,8 +78,19 @@ func (c *Cache[K, D]) CheckExpirations(now time.Time) {
 	c.Range(func(key K, value *Element[D]) bool {
 		if value.IsExpired(now) {
 			verifHook("CheckExpirations.gap", c)
-			c.Delete(key)
-			value.onExpire(value.Data())
+			// remove the element only if it is still the one that was found expired: the key may
+			// have been deleted or given a fresh element since the (unlocked) test above
+			removed := false
+			c.ReplaceWithFunc(key, func(oldValue *Element[D], oldLoaded bool) (*Element[D], bool) {
+				if oldLoaded && oldValue == value {
+					removed = true
+					return nil, true
+				}
+				return oldValue, !oldLoaded
+			})
+			if removed {
+				value.onExpire(value.Data())
+			}
 		}
 		return true
 	})
